@@ -2,6 +2,7 @@ import FFVerif.Props.C03a
 import FFVerif.Props.C03c
 import FFVerif.Props.C03d
 import FFVerif.Props.C04Tile
+import FFVerif.Props.C04TileUnique
 import FFVerif.Pins.pinConcatenate
 import FFVerif.Pins.pinConcatenateWithoutFF
 import FFVerif.Pins.pinControlMatrixFromAtomic
@@ -74,6 +75,9 @@ import FFVerif.Pins.pinConcatenateHamiltonian
 #print axioms FFVerif.C03d.error_iff
 #print axioms FFVerif.C03d.error_small
 #print axioms FFVerif.C03d.no_other_errors
+#print axioms FFVerif.C04Tile.ofDiag_cm_eigh_independent
+#print axioms FFVerif.C04Tile.concat_cm_eq_diag_from_scratch'
+#print axioms FFVerif.C01.cm_eigh_independent
 #print axioms FFVerif.C04Tile.hamiltonian_append
 #print axioms FFVerif.C04Tile.hamiltonian_concat_segment
 #print axioms FFVerif.C04Tile.propagators_append
